@@ -5,7 +5,9 @@ import (
 	"encoding/json"
 	"fmt"
 	"math/rand"
+	"reflect"
 	"sort"
+	"strings"
 
 	"github.com/buildkite/go-pipeline/ordered"
 	"gopkg.in/yaml.v3"
@@ -36,6 +38,7 @@ type mapUnderTest interface {
 	rangeAll(f func(k, v string) error) error
 	toMap() (map[string]string, bool)
 	marshalJSON() ([]byte, error)
+	marshalJSONDirect() ([]byte, error) // the method itself, not through encoding/json (which copies what it is handed)
 	marshalYAML() ([]byte, error)
 	equalSelf() bool
 	equalOther(kv [][2]string, isNil bool, tomb bool) (ab, ba bool)
@@ -57,6 +60,7 @@ func (x mapSS) rangeAll(f func(k, v string) error) error {
 }
 func (x mapSS) toMap() (map[string]string, bool) { t := x.m.ToMap(); return t, t == nil }
 func (x mapSS) marshalJSON() ([]byte, error)     { return json.Marshal(x.m) }
+func (x mapSS) marshalJSONDirect() ([]byte, error) { return x.m.MarshalJSON() }
 func (x mapSS) marshalYAML() ([]byte, error)     { return yaml.Marshal(x.m) }
 func (x mapSS) equalSelf() bool                  { return ordered.Equal(x.m, x.m) }
 func (x mapSS) equalOther(kv [][2]string, isNil, tomb bool) (bool, bool) {
@@ -126,6 +130,7 @@ func (x mapSA) toMap() (map[string]string, bool) {
 	return out, false
 }
 func (x mapSA) marshalJSON() ([]byte, error) { return json.Marshal(x.m) }
+func (x mapSA) marshalJSONDirect() ([]byte, error) { return x.m.MarshalJSON() }
 func (x mapSA) marshalYAML() ([]byte, error) { return yaml.Marshal(x.m) }
 func (x mapSA) equalSelf() bool              { return ordered.Equal(x.m, x.m) }
 func (x mapSA) equalOther(kv [][2]string, isNil, tomb bool) (bool, bool) {
@@ -334,6 +339,22 @@ func observeEvent(tw *traceWriter, m mapUnderTest, alphabet []string, rng *rand.
 			panic("decoding MarshalJSON output " + string(jb) + ": " + err.Error())
 		}
 		ev["json"] = obj{"nil": jnull, "kv": jkv}
+		// the encoding a caller holds stays what it was while OTHER maps are encoded (the method called directly: its
+		// result is the caller's to keep)
+		held, herr := m.marshalJSONDirect()
+		for r := 0; r < 3; r++ {
+			ordered.MapFromItems(ordered.TupleSS{Key: "p", Value: "7"}, ordered.TupleSS{Key: "q", Value: "9"}, ordered.TupleSS{Key: strings.Repeat("w", 40*(r+1)), Value: "x"}).MarshalJSON()
+		}
+		if herr != nil {
+			panic("MarshalJSON (direct): " + herr.Error())
+		}
+		hkv, hnull, err := orderedJSONObject(held)
+		if err != nil {
+			panic("the held MarshalJSON result is no longer JSON: " + string(held) + ": " + err.Error())
+		}
+		if !m.isNil() && !reflect.DeepEqual(hkv, jkv) {
+			ev["json"] = obj{"nil": hnull, "kv": hkv, "held": true}
+		}
 		yb, err := m.marshalYAML()
 		if err != nil {
 			panic("MarshalYAML: " + err.Error())
@@ -396,16 +417,32 @@ func nil2() [][2]string { return [][2]string{} }
 func renameEvent(tw *traceWriter, m mapUnderTest, f map[string][2]string, flist []any) {
 	ev := obj{"op": "rangerename", "f": flist}
 	yields := [][2]string{}
+	// For every second rename function (decided by the function itself) the callback of the LAST live entry also renames
+	// an ABSENT key to a fresh one - an append made from inside the iteration. The pass that is under way does not
+	// visit it (it iterates over what the map held when it began); the driver removes it again right after the
+	// pass, so the abstract state is the one the rename function alone gives.
+	tail := len(fmt.Sprint(flist))%2 == 0
+	ev["tail"] = tail
 	p, msg := guarded(func() {
+		nlive := m.length()
 		m.rangeAll(func(k, v string) error {
 			yields = append(yields, [2]string{k, v})
+			if k == "\x00tail" {
+				return nil // (never on a correct map: reported through `yields`)
+			}
 			to, ok := f[k]
 			if !ok {
 				panic("driver: rename function undefined for yielded key " + k)
 			}
 			m.replace(k, to[0], to[1])
+			if tail && len(yields) == nlive {
+				m.replace("\x00absent", "\x00tail", "T")
+			}
 			return nil
 		})
+		if tail {
+			m.del("\x00tail")
+		}
 		ev["range"] = rangeList(m)
 		ev["len"] = m.length()
 	})
